@@ -17,6 +17,7 @@
 
 use syn::{Expr, Meta};
 
+use crate::from_meta::negative_lit_as_unary;
 use crate::{Error, FromMeta};
 
 /// Parse a [`Meta`] to an [`Expr`]; if the value is a string literal, the emitted
@@ -25,7 +26,7 @@ pub fn preserve_str_literal(meta: &Meta) -> crate::Result<Expr> {
     match meta {
         Meta::Path(_) => Err(Error::unsupported_format("path").with_span(meta)),
         Meta::List(_) => Err(Error::unsupported_format("list").with_span(meta)),
-        Meta::NameValue(nv) => Ok(nv.value.clone()),
+        Meta::NameValue(nv) => Ok(negative_lit_as_unary(&nv.value)),
     }
 }
 
@@ -49,7 +50,7 @@ pub fn parse_str_literal(meta: &Meta) -> crate::Result<Expr> {
             {
                 Expr::from_value(lit)
             } else {
-                Ok(nv.value.clone())
+                Ok(negative_lit_as_unary(&nv.value))
             }
         }
     }
